@@ -183,7 +183,7 @@ def compare_real(chk, name, rec, ins, nu, purity, indist, exact_in, exact_out, t
     return bad
 
 
-GRID_Q = [("hom2", (1, 1)), ("hom2", (2, 0)), ("lossy3", (1, 0, 1)), ("lossy3b", (1, 1, 0))]
+GRID_Q = [("hom2", (1, 1)), ("hom2", (2, 0)), ("lossy3", (1, 0, 1)), ("lossy3b", (1, 1, 0)), ("lossy3", (0, 1, 0)), ("hom2", (0, 0))]
 GRID_T = GRID_Q + [("lossy3", (2, 1, 0)), ("lossy3", (1, 1, 1)), ("lossy3b", (0, 2, 1)), ("hom2", (2, 1))]
 
 
@@ -196,6 +196,8 @@ def run(tier):
     calib = 0.0
     for cname, ins in (GRID_T if th else GRID_Q):
         plist = params if th else [params[0], params[5], rng.choice(params[1:5]), params[4]]
+        if sum(ins) <= 1 and not th:
+            plist = [params[5], params[2]]         # few-photon inputs: imperfect purity / brightness must still show
         for nu, x, pi in plist:
             name = "%s_%s_nu%s_x%s_pi%s" % (cname, "".join(map(str, ins)), nu, x, pi)
             name = name.replace("/", "o")
@@ -220,7 +222,7 @@ def run(tier):
     # continuous source parameters: structure and outcome table from the specification, numbers by the calibrated evaluator
     ncont = 60 if th else 10
     for i in range(ncont):
-        cname, ins = rng.choice(GRID_Q)
+        cname, ins = rng.choice(GRID_Q + [("lossy3b", (1, 0, 0))])
         nu, purity, indist = rng.uniform(0.3, 1), rng.uniform(0.75, 1), rng.uniform(0, 1)
         if rng.random() < 0.2:
             nu = 1.0
